@@ -289,6 +289,27 @@ func OrderSensitive(s Step) bool {
 	return false
 }
 
+// CountComparable reports whether the NUMBER of rows of a traversal is determined although
+// it contains order-sensitive steps: everything after the first of them maps one row to one
+// row (as, fields, render, path, select), truncates by position (limit, skip, range) or
+// counts. A filter, move, unwind or distinct behind it sees whichever rows the row order
+// happened to keep, and row order is not specified (both() merges two branches).
+func CountComparable(steps []Step) bool {
+	seen := false
+	for _, s := range steps {
+		if !seen {
+			seen = OrderSensitive(s)
+			continue
+		}
+		switch s.Op {
+		case "as", "fields", "render", "path", "select", "limit", "skip", "range", "count":
+		default:
+			return false
+		}
+	}
+	return true
+}
+
 // Eval is the reference interpreter: it applies each step's documented meaning to the
 // list of travelers produced by the previous step. It returns the final travelers and
 // their type; unspec != "" means the documentation does not define the result of this
